@@ -137,6 +137,12 @@ def check (spec0):
         judge ('scaling.impedance', abs (a.impedance - b.impedance) / abs (a.impedance), tol, 'impedance changed under voltage scaling')
     g2 = np.array (observe.pattern (m2).gain)
     judge ('scaling.gain', observe.gain_dev_db (g0 [..., 2], g2 [..., 2]) + 1e-300, max (1e-6, 10 * tol), 'dBi pattern changed under voltage scaling')
+    # the dBi pattern is a property of the antenna, whatever field strength table is asked for with it: requests
+    # that name a power level and a distance (the V/m table refers to them) show the same dBi values
+    lvl = float (10 ** (((len (I0) * 7) % 13) / 2.0 - 3))
+    g3 = np.array (observe.pattern (m2, pwr = lvl, dist = 10.0 * lvl).gain)
+    judge ('scaling.gain.level', observe.gain_dev_db (g0 [..., 2], g3 [..., 2]) + 1e-300, max (1e-6, 10 * tol)
+          , 'dBi pattern of the scaled sources requested with power level %.3g W and distance %.3g m differs from the pattern of the unscaled sources' % (lvl, 10 * lvl))
     # (c) superposition: each source alone, others at 0 V / others absent
     if len (spec ['src']) > 1:
         for mode in ('zero', 'absent'):
@@ -169,6 +175,30 @@ def check (spec0):
             m.register_source (MM.Excitation (v * c), idx)
         observe.solve (m)
         judge ('scaling.same-object', rel (np.array (m.current), c * I0), tol, 'I (cV) != c I (V) on a reused model object')
+    # (d) the same sources named the other way - as k-th pulse of an object (command line form k,tag), all of them or
+    # every second one - drive the same pulses with the same voltages: same number of sources, same currents
+    src = [(s.idx, complex (s.voltage)) for s in m.sources] if len (spec ['src']) == 1 else src
+    rel_form = []
+    for idx, v in src:
+        hit = [(g.tag, k) for g in m.geo for k, p in enumerate (g.pulses) if p.idx == idx]
+        rel_form.append (hit [0] if hit else None)
+    if all (x is not None for x in rel_form) and all (g.tag is not None for g in m.geo):
+        for mode in ('per-object', 'mixed'):
+            s4 = copy.deepcopy (spec)
+            s4 ['src'] = []
+            for n, ((idx, v), (tag, k)) in enumerate (zip (src, rel_form)):
+                if mode == 'mixed' and n % 2:
+                    s4 ['src'].append (dict (p = [idx + 1], v = [v.real, v.imag]))
+                else:
+                    s4 ['src'].append (dict (p = [k + 1, tag], v = [v.real, v.imag]))
+            m4 = gen.build (s4)
+            if len (m4.sources) != len (src):
+                viol.append (dict (monitor = 'forms.' + mode, key = 'source-count', msg = '%d sources given as %s, the model has %d' % (len (src), [x ['p'] for x in s4 ['src']], len (m4.sources))))
+                continue
+            observe.solve (m4)
+            judge ('forms.' + mode, rel (np.array (m4.current), I0), tol, 'sources given as %s: currents differ from the same sources given by absolute pulse number' % ([x ['p'] for x in s4 ['src']],))
+            if len (src) == 1:
+                break
     sig = gen.signature (spec, m, extra = ['feeds' + ''.join (sorted (kinds)), 'valid%d' % ok])
     nontrivial = len (spec ['src']) > 1 or ('g' in kinds) or ('j' in kinds) or abs (c.imag) > 0
     return dict ( status = 'violation' if viol else 'held', sig = sig, nontrivial = bool (nontrivial)
